@@ -54,6 +54,9 @@ def test_counts(ctx, counts: dict, n: int, probs: dict, what: str, case, mech: s
     return True
 
 
+_DEFAULT_SAMPLERS: list = []
+
+
 def run_config(ctx, lw, rng, cfg=None):
     emu, State = lw.emulator, lw.State
     cfg = cfg or {}
@@ -94,8 +97,21 @@ def run_config(ctx, lw, rng, cfg=None):
     key = (eta, pd, pc, bool(hph), ps_kind, np.sign(min_det - nph), method)
     nontrivial = eta < 1 or pd > 0 or not pc or bool(h["input"]) or ps_kind != "none" or min_det > 0
     try:
-        det = emu.Detector(efficiency=eta, p_dark=pd, photon_counting=pc)
-        smp = emu.Sampler(c, State(occ), detector=det)
+        if cfg.get("default_detector") or (not cfg and rng.random() < 0.08):
+            # no detector given: a perfect, private one - whatever was done to the default detector of an earlier sampler
+            for old_ in _DEFAULT_SAMPLERS[-2:]:
+                old_.detector.efficiency = 0.5
+                old_.detector.p_dark = 0.2
+                old_.detector.photon_counting = False
+            eta, pd, pc = 1.0, 0.0, True
+            case["detector"] = "omitted (earlier default detectors were edited in place)"
+            smp = emu.Sampler(c, State(occ))
+            _DEFAULT_SAMPLERS.append(smp)
+            del _DEFAULT_SAMPLERS[:-3]
+            ctx.bucket("default_detector_after_another_was_edited")
+        else:
+            det = emu.Detector(efficiency=eta, p_dark=pd, photon_counting=pc)
+            smp = emu.Sampler(c, State(occ), detector=det)
         base = {tuple(s): p for s, p in smp.probability_distribution.items()}
     except Exception as e:  # noqa: BLE001
         ctx.count("setup_raised:" + type(e).__name__)
